@@ -376,7 +376,7 @@ class C13(Check):
             "(nest2), three-level chains (quick: 9 representative shapes; thorough: 22), each through the four translation paths, over the full box "
             "{-2,1,3,1/2}^vars x {True,False}^boolean vars; 7 variable-name alphabets (case, prefixes, "
             "digits, underscores) under non-symmetric shapes; negative int / float / numpy constants "
-            "in every operand role (-0.0 included); sums, products, bitwise nodes, calls and subscripts "
+            "(float64 int64 float32 int8 bool float16 longdouble) in every operand role (-0.0 included); sums, products, bitwise nodes, calls and subscripts "
             "with 65 / 100 / 150 (thorough 33..200) operands each of which changes the value; "
             "non-integer constant exponents over 5 bases (negative points give complex values); "
             "summands -1*b*c of three and more factors at every position; and / or / if whose "
